@@ -360,6 +360,15 @@ impl<K, V, S> HashMap<K, V, S> {
     /// assert!(map.pin().len() == 2);
     /// ```
     pub fn len(&self) -> usize {
+        #[cfg(flurry_verif)]
+        crate::verif::word_op(
+            &self.count,
+            crate::verif::word::COUNT,
+            crate::verif::access::LOAD,
+            Ordering::Relaxed,
+            0,
+            0,
+        );
         let n = self.count.load(Ordering::Relaxed);
         if n < 0 {
             0
@@ -444,13 +453,33 @@ impl<K, V, S> HashMap<K, V, S> {
                 break table;
             }
             // try to allocate the table
+            #[cfg(flurry_verif)]
+            crate::verif::word_op(
+                &self.size_ctl,
+                crate::verif::word::SIZE_CTL,
+                crate::verif::access::LOAD,
+                Ordering::SeqCst,
+                0,
+                0,
+            );
             let mut sc = self.size_ctl.load(Ordering::SeqCst);
             if sc < 0 {
                 // we lost the initialization race; just spin
+                #[cfg(flurry_verif)]
+                crate::verif::at(crate::verif::SPIN, &[crate::verif::site::SPIN_INIT]);
                 std::thread::yield_now();
                 continue;
             }
 
+            #[cfg(flurry_verif)]
+            crate::verif::word_op(
+                &self.size_ctl,
+                crate::verif::word::SIZE_CTL,
+                crate::verif::access::CAS,
+                Ordering::SeqCst,
+                sc,
+                -1,
+            );
             if self
                 .size_ctl
                 .compare_exchange(sc, -1, Ordering::SeqCst, Ordering::Relaxed)
@@ -469,8 +498,24 @@ impl<K, V, S> HashMap<K, V, S> {
                     };
                     table = Shared::boxed(Table::new(n, &self.collector), &self.collector);
                     self.table.store(table, Ordering::SeqCst);
+                    #[cfg(flurry_verif)]
+                    crate::verif::site_ev(
+                        crate::verif::site::TABLE_INIT,
+                        unsafe { table.as_ptr() } as usize,
+                        n,
+                        0,
+                    );
                     sc = load_factor!(n as isize)
                 }
+                #[cfg(flurry_verif)]
+                crate::verif::word_op(
+                    &self.size_ctl,
+                    crate::verif::word::SIZE_CTL,
+                    crate::verif::access::STORE,
+                    Ordering::SeqCst,
+                    sc,
+                    0,
+                );
                 self.size_ctl.store(sc, Ordering::SeqCst);
                 break table;
             }
@@ -513,6 +558,13 @@ impl<K, V, S> HashMap<K, V, S> {
         // store the new table to `self.table`
         self.table.store(new_table, Ordering::SeqCst);
 
+        #[cfg(flurry_verif)]
+        crate::verif::site_ev(
+            crate::verif::site::TABLE_INIT,
+            unsafe { new_table.as_ptr() } as usize,
+            requested_capacity,
+            0,
+        );
         // resize the table once it is 75% full
         let new_load_to_resize_at = load_factor!(requested_capacity as isize);
 
@@ -547,6 +599,15 @@ where
         } as isize;
 
         loop {
+            #[cfg(flurry_verif)]
+            crate::verif::word_op(
+                &self.size_ctl,
+                crate::verif::word::SIZE_CTL,
+                crate::verif::access::LOAD,
+                Ordering::SeqCst,
+                0,
+                0,
+            );
             let size_ctl = self.size_ctl.load(Ordering::SeqCst);
             if size_ctl < 0 {
                 break;
@@ -572,6 +633,15 @@ where
                 let new_capacity = requested_capacity.max(initial_capacity) as usize;
 
                 // try to aquire the initialization "lock" to indicate that we are initializing the table.
+                #[cfg(flurry_verif)]
+                crate::verif::word_op(
+                    &self.size_ctl,
+                    crate::verif::word::SIZE_CTL,
+                    crate::verif::access::CAS,
+                    Ordering::SeqCst,
+                    size_ctl,
+                    -1,
+                );
                 if self
                     .size_ctl
                     .compare_exchange(size_ctl, -1, Ordering::SeqCst, Ordering::Relaxed)
@@ -589,6 +659,15 @@ where
 
                     // the table is already initialized; Write the `size_ctl` value it had back to it's
                     // `size_ctl` field to release the initialization "lock"
+                    #[cfg(flurry_verif)]
+                    crate::verif::word_op(
+                        &self.size_ctl,
+                        crate::verif::word::SIZE_CTL,
+                        crate::verif::access::STORE,
+                        Ordering::SeqCst,
+                        size_ctl,
+                        0,
+                    );
                     self.size_ctl.store(size_ctl, Ordering::SeqCst);
                     continue;
                 }
@@ -602,6 +681,13 @@ where
 
                 // old_table should be `null`, since we don't ever initialize a table with 0 bins
                 // and this branch only happens if table has not yet been initialized or it's length is 0.
+                #[cfg(flurry_verif)]
+                crate::verif::site_ev(
+                    crate::verif::site::TABLE_INIT,
+                    unsafe { new_table.as_ptr() } as usize,
+                    new_capacity,
+                    0,
+                );
                 assert!(old_table.is_null());
 
                 // TODO: if we allow tables with 0 bins. `defer_destroy` `old_table` if it's not `null`:
@@ -615,6 +701,15 @@ where
 
                 // store the next load at which the table should resize to it's size_ctl field
                 // and thus release the initialization "lock"
+                #[cfg(flurry_verif)]
+                crate::verif::word_op(
+                    &self.size_ctl,
+                    crate::verif::word::SIZE_CTL,
+                    crate::verif::access::STORE,
+                    Ordering::SeqCst,
+                    new_load_to_resize_at,
+                    0,
+                );
                 self.size_ctl.store(new_load_to_resize_at, Ordering::SeqCst);
             } else if requested_capacity <= size_ctl || current_capactity >= MAXIMUM_CAPACITY {
                 // Either the `requested_capacity` was smaller than or equal to the load we would resize at (size_ctl)
@@ -632,6 +727,15 @@ where
                 // and since our size_control field needs to be negative
                 // to indicate a resize this needs to be addressed
 
+                #[cfg(flurry_verif)]
+                crate::verif::word_op(
+                    &self.size_ctl,
+                    crate::verif::word::SIZE_CTL,
+                    crate::verif::access::CAS,
+                    Ordering::SeqCst,
+                    size_ctl,
+                    rs + 2,
+                );
                 if self
                     .size_ctl
                     .compare_exchange(size_ctl, rs + 2, Ordering::SeqCst, Ordering::Relaxed)
@@ -639,6 +743,13 @@ where
                 {
                     // someone else already started to resize the table
                     // TODO: can we `self.help_transfer`?
+                    #[cfg(flurry_verif)]
+                    crate::verif::site_ev(
+                        crate::verif::site::RESIZE_START,
+                        unsafe { table.as_ptr() } as usize,
+                        current_capactity,
+                        0,
+                    );
                     self.transfer(table, Shared::null(), guard);
                 }
             }
@@ -669,6 +780,15 @@ where
             let table = Shared::boxed(Table::new(n << 1, &self.collector), &self.collector);
             let now_garbage = self.next_table.swap(table, Ordering::SeqCst, guard);
             assert!(now_garbage.is_null());
+            #[cfg(flurry_verif)]
+            crate::verif::word_op(
+                &self.transfer_index,
+                crate::verif::word::TRANSFER_INDEX,
+                crate::verif::access::STORE,
+                Ordering::SeqCst,
+                n as isize,
+                0,
+            );
             self.transfer_index.store(n as isize, Ordering::SeqCst);
             next_table_ptr = self.next_table.load(Ordering::Relaxed, guard);
         }
@@ -689,6 +809,15 @@ where
                     break;
                 }
 
+                #[cfg(flurry_verif)]
+                crate::verif::word_op(
+                    &self.transfer_index,
+                    crate::verif::word::TRANSFER_INDEX,
+                    crate::verif::access::LOAD,
+                    Ordering::SeqCst,
+                    0,
+                    0,
+                );
                 let next_index = self.transfer_index.load(Ordering::SeqCst);
                 if next_index <= 0 {
                     i = -1;
@@ -701,6 +830,15 @@ where
                 } else {
                     0
                 };
+                #[cfg(flurry_verif)]
+                crate::verif::word_op(
+                    &self.transfer_index,
+                    crate::verif::word::TRANSFER_INDEX,
+                    crate::verif::access::CAS,
+                    Ordering::SeqCst,
+                    next_index,
+                    next_bound,
+                );
                 if self
                     .transfer_index
                     .compare_exchange(next_index, next_bound, Ordering::SeqCst, Ordering::Relaxed)
@@ -745,18 +883,59 @@ where
                     // because of this, that thread must have been marked as active, and included
                     // in the reference count, meaning the garbage will not be freed until
                     // that thread drops its guard at the earliest.
+                    #[cfg(flurry_verif)]
+                    crate::verif::site_ev(
+                        crate::verif::site::TABLE_PUBLISHED,
+                        unsafe { now_garbage.as_ptr() } as usize,
+                        unsafe { next_table_ptr.as_ptr() } as usize,
+                        next_n,
+                    );
                     unsafe { guard.retire_shared(now_garbage) };
+                    #[cfg(flurry_verif)]
+                    crate::verif::word_op(
+                        &self.size_ctl,
+                        crate::verif::word::SIZE_CTL,
+                        crate::verif::access::STORE,
+                        Ordering::SeqCst,
+                        ((n as isize) << 1) - ((n as isize) >> 1),
+                        0,
+                    );
                     self.size_ctl
                         .store(((n as isize) << 1) - ((n as isize) >> 1), Ordering::SeqCst);
                     return;
                 }
 
+                #[cfg(flurry_verif)]
+                crate::verif::word_op(
+                    &self.size_ctl,
+                    crate::verif::word::SIZE_CTL,
+                    crate::verif::access::LOAD,
+                    Ordering::SeqCst,
+                    0,
+                    0,
+                );
                 let sc = self.size_ctl.load(Ordering::SeqCst);
+                #[cfg(flurry_verif)]
+                crate::verif::word_op(
+                    &self.size_ctl,
+                    crate::verif::word::SIZE_CTL,
+                    crate::verif::access::CAS,
+                    Ordering::SeqCst,
+                    sc,
+                    sc - 1,
+                );
                 if self
                     .size_ctl
                     .compare_exchange(sc, sc - 1, Ordering::SeqCst, Ordering::Relaxed)
                     .is_ok()
                 {
+                    #[cfg(flurry_verif)]
+                    crate::verif::site_ev(
+                        crate::verif::site::RESIZE_LEAVE,
+                        unsafe { table.as_ptr() } as usize,
+                        ((sc - 2) == Self::resize_stamp(n) << RESIZE_STAMP_SHIFT) as usize,
+                        0,
+                    );
                     if (sc - 2) != Self::resize_stamp(n) << RESIZE_STAMP_SHIFT {
                         return;
                     }
@@ -791,6 +970,15 @@ where
                         guard,
                     )
                     .is_ok();
+                #[cfg(flurry_verif)]
+                if advance {
+                    crate::verif::site_ev(
+                        crate::verif::site::BIN_MIGRATED,
+                        table as *const _ as usize,
+                        i,
+                        0,
+                    );
+                }
                 continue;
             }
             // safety: as for table above
@@ -819,6 +1007,8 @@ where
                 }
                 BinEntry::Node(ref head) => {
                     // bin is non-empty, need to link into it, so we must take the lock
+                    #[cfg(flurry_verif)]
+                    crate::verif::before_lock(&head.lock);
                     let head_lock = head.lock.lock();
 
                     // need to check that this is _still_ the head
@@ -909,6 +1099,13 @@ where
 
                     // everything up to last_run in the _old_ bin linked list is now garbage.
                     // those nodes have all been re-allocated in the new bin linked list.
+                    #[cfg(flurry_verif)]
+                    crate::verif::site_ev(
+                        crate::verif::site::BIN_MIGRATED,
+                        table as *const _ as usize,
+                        i,
+                        0,
+                    );
                     p = bin;
                     while p != last_run {
                         // safety:
@@ -934,6 +1131,8 @@ where
                     drop(head_lock);
                 }
                 BinEntry::Tree(ref tree_bin) => {
+                    #[cfg(flurry_verif)]
+                    crate::verif::before_lock(&tree_bin.lock);
                     let bin_lock = tree_bin.lock.lock();
 
                     // need to check that this is _still_ the correct bin
@@ -1065,6 +1264,13 @@ where
                     // if we did not re-use the old bin, it is now garbage,
                     // since all of its nodes have been reallocated. However,
                     // we always re-use the stored values, so we can't drop those.
+                    #[cfg(flurry_verif)]
+                    crate::verif::site_ev(
+                        crate::verif::site::BIN_MIGRATED,
+                        table as *const _ as usize,
+                        i,
+                        0,
+                    );
                     if !reused_bin {
                         // safety: the entry for this bin in the old table was
                         // swapped for a Moved entry, so no thread can obtain a
@@ -1110,7 +1316,25 @@ where
         while next_table == self.next_table.load(Ordering::SeqCst, guard)
             && table == self.table.load(Ordering::SeqCst, guard)
         {
+            #[cfg(flurry_verif)]
+            crate::verif::word_op(
+                &self.size_ctl,
+                crate::verif::word::SIZE_CTL,
+                crate::verif::access::LOAD,
+                Ordering::SeqCst,
+                0,
+                0,
+            );
             let sc = self.size_ctl.load(Ordering::SeqCst);
+            #[cfg(flurry_verif)]
+            crate::verif::word_op(
+                &self.transfer_index,
+                crate::verif::word::TRANSFER_INDEX,
+                crate::verif::access::LOAD,
+                Ordering::SeqCst,
+                0,
+                0,
+            );
             if sc >= 0
                 || sc == rs + MAX_RESIZERS
                 || sc == rs + 1
@@ -1119,11 +1343,27 @@ where
                 break;
             }
 
+            #[cfg(flurry_verif)]
+            crate::verif::word_op(
+                &self.size_ctl,
+                crate::verif::word::SIZE_CTL,
+                crate::verif::access::CAS,
+                Ordering::SeqCst,
+                sc,
+                sc + 1,
+            );
             if self
                 .size_ctl
                 .compare_exchange(sc, sc + 1, Ordering::SeqCst, Ordering::Relaxed)
                 .is_ok()
             {
+                #[cfg(flurry_verif)]
+                crate::verif::site_ev(
+                    crate::verif::site::RESIZE_JOIN,
+                    unsafe { table.as_ptr() } as usize,
+                    0,
+                    0,
+                );
                 self.transfer(table, next_table, guard);
                 break;
             }
@@ -1135,6 +1375,15 @@ where
         // TODO: implement the Java CounterCell business here
 
         use std::cmp;
+        #[cfg(flurry_verif)]
+        crate::verif::word_op(
+            &self.count,
+            crate::verif::word::COUNT,
+            crate::verif::access::ADD,
+            Ordering::SeqCst,
+            n,
+            0,
+        );
         let mut count = match n.cmp(&0) {
             cmp::Ordering::Greater => self.count.fetch_add(n, Ordering::SeqCst) + n,
             cmp::Ordering::Less => self.count.fetch_sub(n.abs(), Ordering::SeqCst) - n,
@@ -1151,6 +1400,15 @@ where
         let _saw_bin_length = resize_hint.unwrap();
 
         loop {
+            #[cfg(flurry_verif)]
+            crate::verif::word_op(
+                &self.size_ctl,
+                crate::verif::word::SIZE_CTL,
+                crate::verif::access::LOAD,
+                Ordering::SeqCst,
+                0,
+                0,
+            );
             let sc = self.size_ctl.load(Ordering::SeqCst);
             if count < sc {
                 // we're not at the next resize point yet
@@ -1175,6 +1433,17 @@ where
             }
 
             let rs = Self::resize_stamp(n) << RESIZE_STAMP_SHIFT;
+            #[cfg(flurry_verif)]
+            if sc >= 0 {
+                crate::verif::word_op(
+                    &self.size_ctl,
+                    crate::verif::word::SIZE_CTL,
+                    crate::verif::access::CAS,
+                    Ordering::SeqCst,
+                    sc,
+                    rs + 2,
+                );
+            }
             if sc < 0 {
                 // ongoing resize! can we join the resize transfer?
                 if sc == rs + MAX_RESIZERS || sc == rs + 1 {
@@ -1184,16 +1453,41 @@ where
                 if nt.is_null() {
                     break;
                 }
+                #[cfg(flurry_verif)]
+                crate::verif::word_op(
+                    &self.transfer_index,
+                    crate::verif::word::TRANSFER_INDEX,
+                    crate::verif::access::LOAD,
+                    Ordering::SeqCst,
+                    0,
+                    0,
+                );
                 if self.transfer_index.load(Ordering::SeqCst) <= 0 {
                     break;
                 }
 
                 // try to join!
+                #[cfg(flurry_verif)]
+                crate::verif::word_op(
+                    &self.size_ctl,
+                    crate::verif::word::SIZE_CTL,
+                    crate::verif::access::CAS,
+                    Ordering::SeqCst,
+                    sc,
+                    sc + 1,
+                );
                 if self
                     .size_ctl
                     .compare_exchange(sc, sc + 1, Ordering::SeqCst, Ordering::Relaxed)
                     .is_ok()
                 {
+                    #[cfg(flurry_verif)]
+                    crate::verif::site_ev(
+                        crate::verif::site::RESIZE_JOIN,
+                        unsafe { table.as_ptr() } as usize,
+                        0,
+                        0,
+                    );
                     self.transfer(table, nt, guard);
                 }
             } else if self
@@ -1204,10 +1498,26 @@ where
                 // a resize is needed, but has not yet started
                 // TODO: figure out why this is rs + 2, not just rs
                 // NOTE: this also applies to `try_presize`
+                #[cfg(flurry_verif)]
+                crate::verif::site_ev(
+                    crate::verif::site::RESIZE_START,
+                    unsafe { table.as_ptr() } as usize,
+                    n,
+                    0,
+                );
                 self.transfer(table, Shared::null(), guard);
             }
 
             // another resize may be needed!
+            #[cfg(flurry_verif)]
+            crate::verif::word_op(
+                &self.count,
+                crate::verif::word::COUNT,
+                crate::verif::access::LOAD,
+                Ordering::SeqCst,
+                0,
+                0,
+            );
             count = self.count.load(Ordering::SeqCst);
         }
     }
@@ -1468,6 +1778,8 @@ where
                     idx = 0;
                 }
                 BinEntry::Node(ref node) => {
+                    #[cfg(flurry_verif)]
+                    crate::verif::before_lock(&node.lock);
                     let head_lock = node.lock.lock();
                     // need to check that this is _still_ the head
                     let current_head = tab.bin(idx, guard);
@@ -1520,6 +1832,8 @@ where
                     idx += 1;
                 }
                 BinEntry::Tree(ref tree_bin) => {
+                    #[cfg(flurry_verif)]
+                    crate::verif::before_lock(&tree_bin.lock);
                     let bin_lock = tree_bin.lock.lock();
                     // need to check that this is _still_ the correct bin
                     let current_head = tab.bin(idx, guard);
@@ -1767,6 +2081,8 @@ where
                 }
                 BinEntry::Node(ref head) => {
                     // bin is non-empty, need to link into it, so we must take the lock
+                    #[cfg(flurry_verif)]
+                    crate::verif::before_lock(&head.lock);
                     let head_lock = head.lock.lock();
 
                     // need to check that this is _still_ the head
@@ -1857,6 +2173,8 @@ where
                 // cannot occur as in the Java code, TreeBins have a special, indicator hash value
                 BinEntry::Tree(ref tree_bin) => {
                     // bin is non-empty, need to link into it, so we must take the lock
+                    #[cfg(flurry_verif)]
+                    crate::verif::before_lock(&tree_bin.lock);
                     let head_lock = tree_bin.lock.lock();
 
                     // need to check that this is _still_ the correct bin
@@ -2070,6 +2388,8 @@ where
                 }
                 BinEntry::Node(ref head) => {
                     // bin is non-empty, need to link into it, so we must take the lock
+                    #[cfg(flurry_verif)]
+                    crate::verif::before_lock(&head.lock);
                     let head_lock = head.lock.lock();
 
                     // need to check that this is _still_ the head
@@ -2189,6 +2509,8 @@ where
                 }
                 BinEntry::Tree(ref tree_bin) => {
                     // bin is non-empty, need to link into it, so we must take the lock
+                    #[cfg(flurry_verif)]
+                    crate::verif::before_lock(&tree_bin.lock);
                     let bin_lock = tree_bin.lock.lock();
 
                     // need to check that this is _still_ the head
@@ -2277,6 +2599,13 @@ where
                                         guard,
                                     );
                                     t.store_bin(bini, linear_bin);
+                                    #[cfg(flurry_verif)]
+                                    crate::verif::site_ev(
+                                        crate::verif::site::UNTREEIFIED,
+                                        t as *const _ as usize,
+                                        bini,
+                                        0,
+                                    );
                                     // the old bin is now garbage, but its values are not,
                                     // since they are re-used in the linear bin.
                                     // safety: in the same way as for `now_garbage` above, any existing
@@ -2464,6 +2793,8 @@ where
                     continue;
                 }
                 BinEntry::Node(ref head) => {
+                    #[cfg(flurry_verif)]
+                    crate::verif::before_lock(&head.lock);
                     let head_lock = head.lock.lock();
 
                     // need to check that this is _still_ the head
@@ -2533,6 +2864,8 @@ where
                     drop(head_lock);
                 }
                 BinEntry::Tree(ref tree_bin) => {
+                    #[cfg(flurry_verif)]
+                    crate::verif::before_lock(&tree_bin.lock);
                     let bin_lock = tree_bin.lock.lock();
 
                     // need to check that this is _still_ the head
@@ -2590,6 +2923,13 @@ where
                                 let linear_bin = self
                                     .untreeify(tree_bin.first.load(Ordering::SeqCst, guard), guard);
                                 t.store_bin(bini, linear_bin);
+                                #[cfg(flurry_verif)]
+                                crate::verif::site_ev(
+                                    crate::verif::site::UNTREEIFIED,
+                                    t as *const _ as usize,
+                                    bini,
+                                    0,
+                                );
                                 // the old bin is now garbage, but its values are not,
                                 // since they get re-used in the linear bin
                                 // safety: same as in put
@@ -2735,6 +3075,8 @@ where
             // won't be dropped until after we release our guard.
             match **unsafe { bin.deref() } {
                 BinEntry::Node(ref node) => {
+                    #[cfg(flurry_verif)]
+                    crate::verif::before_lock(&node.lock);
                     let lock = node.lock.lock();
                     // check if `bin` is still the head
                     if tab.bin(index, guard) != bin {
@@ -2786,6 +3128,13 @@ where
                     // and have never shared them
                     let head_bin = unsafe { BinEntry::Tree(TreeBin::new(head, guard)) };
                     tab.store_bin(index, Shared::boxed(head_bin, &self.collector));
+                    #[cfg(flurry_verif)]
+                    crate::verif::site_ev(
+                        crate::verif::site::TREEIFIED,
+                        tab as *const _ as usize,
+                        index,
+                        0,
+                    );
                     drop(lock);
                     // make sure the old bin entries get dropped
                     e = bin;
